@@ -655,3 +655,200 @@ func EnvLookup(env map[string]int64, suffix string) (int64, bool) {
 	}
 	return 0, false
 }
+
+// TabulateFunc evaluates a loop-free, side-effect-free function for every
+// combination of the given leaf values by following its control-flow graph:
+// at each branch the condition is evaluated for the valuation, local
+// definitions "x := e" / "x = e" are recorded, and the (single) result of
+// the return statement reached is reported.  Anything else (loops, calls
+// that are not one-line repository functions, multi-value returns) makes
+// the tabulation undecided.
+func (p *Program) TabulateFunc(fn *Func, domains map[string][]int64, cb func(env map[string]int64, n int64, b bool)) (decided bool, reason string) {
+	g := fn.Graph()
+	for _, v := range g.Vs {
+		if g.InLoop(v) {
+			return false, "the function contains a loop"
+		}
+	}
+	// leaves: collect over all conditions, right-hand sides and results
+	le := &logicEnv{prog: p, leaves: map[string]bool{}, consts: map[int64]bool{}, collect: true, bitops: true,
+		parent: map[string]string{}, groupCs: map[string]map[int64]bool{}}
+	locals := map[types.Object]bool{}
+	for _, v := range g.Vs {
+		if as, ok := v.AST.(*ast.AssignStmt); ok {
+			for _, l := range as.Lhs {
+				if id, ok := l.(*ast.Ident); ok {
+					if o := fn.Info().ObjectOf(id); o != nil {
+						locals[o] = true
+					}
+				}
+			}
+		}
+	}
+	subst0 := map[types.Object]ast.Expr{}
+	for o := range locals {
+		subst0[o] = &ast.BasicLit{Kind: token.INT, Value: "0"}
+	}
+	for _, v := range g.Vs {
+		switch s := v.AST.(type) {
+		case *ast.AssignStmt:
+			for _, r := range s.Rhs {
+				le.eval(fn, r, subst0)
+			}
+		case *ast.ReturnStmt:
+			for _, r := range s.Results {
+				le.eval(fn, r, subst0)
+			}
+		}
+		if v.Cond != nil && v.Cond.Expr != nil {
+			le.eval(fn, v.Cond.Expr, subst0)
+			if v.Cond.Tag != nil {
+				le.eval(fn, v.Cond.Tag, subst0)
+			}
+		}
+	}
+	le.collect = false
+	var keys []string
+	for k := range le.leaves {
+		keys = append(keys, k)
+	}
+	sort.Strings(keys)
+	doms := make([][]int64, len(keys))
+	total := 1
+	for i, k := range keys {
+		if le.leaves[k] {
+			doms[i] = []int64{0, 1}
+		} else {
+			found := false
+			for suffix, d := range domains {
+				if strings.HasSuffix(k, suffix) || strings.HasPrefix(k, suffix+"@") {
+					doms[i] = d
+					found = true
+				}
+			}
+			if !found {
+				return false, "no domain for leaf " + k
+			}
+		}
+		total *= len(doms[i])
+		if total > 5_000_000 || total == 0 {
+			return false, "domain product too large or empty"
+		}
+	}
+	idx := make([]int, len(keys))
+	le.val = map[string]lval{}
+	for {
+		env := map[string]int64{}
+		for i, k := range keys {
+			if le.leaves[k] {
+				le.val[k] = lval{isBool: true, b: idx[i] == 1, ok: true}
+				env[k] = int64(idx[i])
+			} else {
+				le.val[k] = lval{n: doms[i][idx[i]], ok: true}
+				env[k] = doms[i][idx[i]]
+			}
+		}
+		// walk
+		subst := map[types.Object]ast.Expr{}
+		cur := g.Entry
+		steps := 0
+		for {
+			steps++
+			if steps > 10000 || cur == nil {
+				return false, "walk did not reach a return"
+			}
+			if rs, ok := cur.AST.(*ast.ReturnStmt); ok {
+				if len(rs.Results) != 1 {
+					return false, "return with other than one result"
+				}
+				v := le.eval(fn, rs.Results[0], subst)
+				if !v.ok {
+					return false, "result not evaluable: " + le.giveUp
+				}
+				cb(env, v.n, v.b)
+				break
+			}
+			if as, ok := cur.AST.(*ast.AssignStmt); ok {
+				if len(as.Lhs) != len(as.Rhs) || (as.Tok != token.ASSIGN && as.Tok != token.DEFINE) {
+					return false, "assignment not understood: " + p.Src(as)
+				}
+				for i, l := range as.Lhs {
+					id, ok := l.(*ast.Ident)
+					if !ok {
+						return false, "assignment to a non-variable: " + p.Src(as)
+					}
+					v := le.eval(fn, as.Rhs[i], subst)
+					if !v.ok {
+						return false, "value not evaluable: " + p.Src(as.Rhs[i])
+					}
+					var lit ast.Expr
+					if v.isBool {
+						if v.b {
+							lit = &ast.BinaryExpr{X: &ast.BasicLit{Kind: token.INT, Value: "0"}, Op: token.EQL, Y: &ast.BasicLit{Kind: token.INT, Value: "0"}}
+						} else {
+							lit = FalseExpr
+						}
+					} else {
+						lit = &ast.BasicLit{Kind: token.INT, Value: strconv.FormatInt(v.n, 10)}
+						if v.n < 0 {
+							lit = &ast.UnaryExpr{Op: token.SUB, X: &ast.BasicLit{Kind: token.INT, Value: strconv.FormatInt(-v.n, 10)}}
+						}
+					}
+					if o := fn.Info().ObjectOf(id); o != nil {
+						subst[o] = lit
+					}
+				}
+			}
+			var next *V
+			if cur.Cond != nil && cur.Cond.Expr != nil {
+				var take bool
+				if cur.Cond.Tag != nil {
+					l := le.eval(fn, cur.Cond.Tag, subst)
+					r := le.eval(fn, cur.Cond.Expr, subst)
+					if !l.ok || !r.ok {
+						return false, "switch not evaluable"
+					}
+					take = l.n == r.n
+				} else {
+					v := le.eval(fn, cur.Cond.Expr, subst)
+					if !v.ok {
+						return false, "condition not evaluable: " + p.Src(cur.Cond.Expr) + " " + le.giveUp
+					}
+					take = v.b
+				}
+				want := EdgeFalse
+				if take {
+					want = EdgeTrue
+				}
+				for _, e := range cur.Succs {
+					if e.Label == want {
+						next = e.To
+					}
+				}
+			} else if cur.Cond != nil {
+				return false, "branch without condition (type switch, select or range)"
+			} else {
+				if len(cur.Succs) != 1 {
+					if cur == g.Exit {
+						return false, "fell off the end"
+					}
+					return false, "unexpected fan-out at " + p.Pos(cur.AST.Pos())
+				}
+				next = cur.Succs[0].To
+			}
+			cur = next
+		}
+		i := 0
+		for ; i < len(keys); i++ {
+			idx[i]++
+			if idx[i] < len(doms[i]) {
+				break
+			}
+			idx[i] = 0
+		}
+		if i == len(keys) {
+			break
+		}
+	}
+	return true, ""
+}
